@@ -121,6 +121,10 @@ def check_getitem(run, f):
             if arg is not None and matches('%s.data[%s]' % (s, i), arg) is not None:
                 run.holds(RULE, f.key, 'slice', 'slice delegated to list slicing', f=f, node=r)
                 continue
+            if arg is not None:
+                # locals of the arm are put in place (selected = range(*i.indices(len(self))); [self.data[k] for k in selected])
+                from ..cfg import pure_locals, _subst_pure
+                arg = _subst_pure(arg, {k: v for k, v in pure_locals(f.node).items() if k not in (s, i)})
             rng = [n for n in ast.walk(arg)] if arg is not None else []
             rcalls = [n for n in rng if isinstance(n, ast.Call) and isinstance(n.func, ast.Name) and n.func.id == 'range']
             if len(rcalls) == 1:
